@@ -581,6 +581,9 @@ Qed.
 Lemma inter_lw : forall p, has lw p = true -> inter p [lw] = true.
 Proof. intros p H. unfold inter. cbn. rewrite H. reflexivity. Qed.
 
+Lemma pperms_of_nonroot : forall pol p, is_root p = false -> pperms_of pol p = pol (parent p).
+Proof. intros pol p H. unfold pperms_of. rewrite H. reflexivity. Qed.
+
 Lemma do_put_cases : forall cfg pol s p ct b im inm s' r,
   do_put cfg pol s p ct b im inm = (s', r) ->
   (s' = s /\ is_error (fst r) = true)
@@ -589,7 +592,9 @@ Lemma do_put_cases : forall cfg pol s p ct b im inm s' r,
         /\ ((exists c, resolve s p = NColl c) \/ c_tag pc = TNone)
         /\ validate b true tg = Some objs
         /\ s' = set_coll (del_subtree s p) p (mkColl tg [] (items_of_objs objs))
-        /\ r = (S201, PEtag (EtColl (mkColl tg [] (items_of_objs objs)))))
+        /\ r = (S201, PEtag (EtColl (mkColl tg [] (items_of_objs objs))))
+        /\ has (match tg with TNone => lW | _ => lw end) (pol p) = true
+        /\ (if permit_overwrite cfg then has lo (pol p) = false else has lO (pol p) = true))
   \/ (exists pc o,
         resolve s (parent p) = NColl pc /\ c_tag pc <> TNone
         /\ (forall c, resolve s p <> NColl c)
@@ -599,7 +604,8 @@ Lemma do_put_cases : forall cfg pol s p ct b im inm s' r,
             | _ => has_uid pc (o_uid o) = false
             end)
         /\ s' = set_coll s (parent p) (mkColl (c_tag pc) (c_props pc) (assoc_set (c_items pc) (last_name p) o))
-        /\ r = (S201, PEtag (EtItem o))).
+        /\ r = (S201, PEtag (EtItem o))
+        /\ has lw (pol (parent p)) = true /\ is_root p = false).
 Proof.
   intros cfg pol s p ct b im inm s' r H. unfold do_put in H.
   destruct (negb (check pol p lw NoItem)); [inversion H; left; split; reflexivity|].
@@ -617,17 +623,25 @@ Proof.
   destruct wwc; cbv iota in H'.
   - (* whole collection *)
     cbn [andb] in Eroot.
-    match type of H' with (if ?c then _ else _) = _ => destruct c; [inversion H'; left; split; reflexivity|] end.
+    match type of H' with (if ?c then _ else _) = _ => destruct c eqn:Eperm1; [inversion H'; left; split; reflexivity|] end.
     match type of H' with (if ?c then _ else _) = _ => destruct c; [inversion H'; left; split; reflexivity|] end.
     match type of H' with (if ?c then _ else _) = _ => destruct c; [inversion H'; left; split; reflexivity|] end.
     rewrite <- E1 in H'.
-    destruct (put_prep b ct pm ppm t1 true (prepare b ct pm ppm None None)) as [|t2 w2 [objs|]] eqn:Epp;
+    destruct (put_prep b ct pm ppm t1 true (prepare b ct pm ppm None None)) as [|t2 w2 oi] eqn:Epp;
       try (inversion H'; left; split; reflexivity).
+    match type of H' with (if ?c then _ else _) = _ => destruct c eqn:Eperm2; [inversion H'; left; split; reflexivity|] end.
+    destruct oi as [objs|]; try (inversion H'; left; split; reflexivity).
     apply put_prep_whole in Epp as (tg & -> & Hval). inversion H'; subst. right. left.
-    exists pc, tg, objs. repeat split; try assumption; try reflexivity.
-    symmetry in Ew. apply orb_true_iff in Ew as [Ew|Ew].
-    + left. destruct (resolve s p); try discriminate. eexists. reflexivity.
-    + right. destruct (c_tag pc); try discriminate. reflexivity.
+    exists pc, tg, objs.
+    assert (Hp2 : has (match tg with TNone => lW | _ => lw end) (pol p) = true).
+    { cbn [andb] in Eperm2. apply negb_false_iff in Eperm2. destruct tg; exact Eperm2. }
+    assert (Hflag : if permit_overwrite cfg then has lo (pol p) = false else has lO (pol p) = true).
+    { apply orb_false_iff in Eperm1 as [_ Ef]. destruct (permit_overwrite cfg); [exact Ef|apply negb_false_iff in Ef; exact Ef]. }
+    split; [exact Eroot|]. split; [reflexivity|]. split.
+    { symmetry in Ew. apply orb_true_iff in Ew as [Ew|Ew].
+      + left. destruct (resolve s p); try discriminate. eexists. reflexivity.
+      + right. destruct (c_tag pc); try discriminate. reflexivity. }
+    split; [exact Hval|]. split; [reflexivity|]. split; [reflexivity|]. split; [exact Hp2|exact Hflag].
   - (* single item *)
     symmetry in Ew. apply orb_false_iff in Ew as [Ew1 Ew2].
     match type of H' with (if ?c then _ else _) = _ => destruct c eqn:Eperm; [inversion H'; left; split; reflexivity|] end.
@@ -635,11 +649,16 @@ Proof.
     match type of H' with (if ?c then _ else _) = _ => destruct c; [inversion H'; left; split; reflexivity|] end.
     match type of H' with (if ?c then _ else _) = _ => destruct c; [inversion H'; left; split; reflexivity|] end.
     rewrite <- E1 in H'. rewrite Eperm in *.
-    destruct (put_prep b ct pm true (Some (c_tag pc)) false (prepare b ct pm true None None)) as [|t2 w2 [objs|]] eqn:Epp;
+    destruct (put_prep b ct pm true (Some (c_tag pc)) false (prepare b ct pm true None None)) as [|t2 w2 oi] eqn:Epp;
       try (inversion H'; left; split; reflexivity).
+    cbn [andb] in H'. destruct oi as [objs|]; try (inversion H'; left; split; reflexivity).
     apply put_prep_item in Epp.
     destruct objs as [|o [|]]; try (inversion H'; left; split; reflexivity).
     match type of H' with (if ?c then _ else _) = _ => destruct c eqn:Econf; [inversion H'; left; split; reflexivity|] end.
+    assert (Hnr : is_root p = false).
+    { destruct p; [|reflexivity]. exfalso. cbn [parent removelast] in Epar. rewrite Epar in Ew1. discriminate. }
+    assert (Hpw : has lw (pol (parent p)) = true).
+    { unfold ppm, inter in Eperm. cbn [existsb] in Eperm. rewrite orb_false_r in Eperm. rewrite pperms_of_nonroot in Eperm by exact Hnr. exact Eperm. }
     inversion H'; subst. right. right. exists pc, o. repeat split; try assumption; try reflexivity.
     + intros Ht. rewrite Ht in Ew2. discriminate.
     + intros c Hc. rewrite Hc in Ew1. discriminate.
